@@ -118,9 +118,19 @@ func (a *AuthIp) parseAuthIp() error {
 		return nil
 	}
 
+	listed := make(map[string]struct{}, len(auth.IpList))
 	for _, ip := range auth.IpList {
+		listed[ip] = struct{}{}
 		if !IpMap.Insert(ip, struct{}{}) {
 			logging.Debugf("set ip %s", ip)
+		}
+	}
+	// addresses that are no longer in the file lose their access
+	for kv := range IpMap.Iter() {
+		if ip, ok := kv.Key.(string); ok {
+			if _, keep := listed[ip]; !keep {
+				IpMap.Del(ip)
+			}
 		}
 	}
 	return nil
